@@ -87,6 +87,19 @@ def gen_fault(rng, by_len, fields, kinds=None):
         return ['overwrite', position(rng, n, fields), rng.rbytes(rng.wpick([(3, rng.randrange(1, 5)), (2, rng.randrange(4, 64))])).hex()]
     if kind == 'header_damage':
         return ['overwrite', rng.randrange(0, 128), rng.rbytes(rng.randrange(1, 24)).hex()]
+    if kind == 'stretch_token':
+        toks = [f for f in fields if f[2].endswith('.token')]
+        if not toks:
+            return ['bitflip', position(rng, n, fields), rng.randrange(8)]
+        pos, ln, _ = rng.pick(toks)
+        return ['stretch', pos, ln, rng.pick([26, 32, 40, 64])]
+    if kind == 'char_sub':
+        # one character of a key token of a text format replaced by another legal-looking character
+        toks = [f for f in fields if f[2].endswith('.token') or f[2].endswith('.header')]
+        if not toks:
+            return ['bitflip', position(rng, n, fields), rng.randrange(8)]
+        pos, ln, _ = rng.pick(toks)
+        return ['overwrite', pos + rng.randrange(max(1, min(ln, 12))), bytes([rng.pick(list(b'.:~# -09A\t'))]).hex()]
     if kind == 'shorten_record':
         # the length field of a physical record / segment / visible record is lowered so that the record ends exactly at a
         # structural boundary INSIDE it (in front of or behind a stored value): the record-level twin of truncating the file
